@@ -36,7 +36,7 @@ Cl(name, ok) == [c |-> name, ok |-> ok]
 ResComp(root, e) == [s |-> IF e.h THEN NodeAt(root, e.p) ELSE 0, p |-> e.p, h |-> e.h]
 ResCap(root, c)  == [tag |-> c.tag, t |-> c.t, cat |-> c.cat,
                      el |-> [a \in 1..Len(c.el) |-> [b \in 1..Len(c.el[a]) |-> ResComp(root, c.el[a][b])]]]
-ResMatch(root, m) == [p |-> m.p, x |-> NodeAt(root, m.p), caps |-> [j \in 1..Len(m.caps) |-> ResCap(root, m.caps[j])]]
+ResMatch(root, m) == [p |-> m.p, x |-> NodeAt(root, m.p), ml |-> m.ml, caps |-> [j \in 1..Len(m.caps) |-> ResCap(root, m.caps[j])]]
 ResM(root, ms)    == [i \in 1..Len(ms) |-> ResMatch(root, ms[i])]
 
 (* is the node at path p an element of a list field                           *)
@@ -48,7 +48,11 @@ ExclKinds == {"JoinedStr", "FormattedValue", "MatchValue", "MatchSingleton", "Ma
               "MatchClass", "MatchStar", "MatchAs", "MatchOr"}
 Excluded(root, p) == \E n \in 0..Len(p) : Kind(NodeAt(root, SubSeq(p, 1, n))) \in ExclKinds
 
-CaseFits(K, root) == \A m \in K.Sel : /\ ~Excluded(root, K.M[m].p)
+(* named deviation DocstrReindent (option docstr, default True, documented): a multi-line string that is an   *)
+(* expression statement is re-indented with the block it moves into, which changes its value; matches that     *)
+(* contain one (fact `ml`, from the ast positions) are judged only when the call passes docstr=False           *)
+DocstrSafe(K, m) == ~K.docstr \/ ~K.M[m].ml
+CaseFits(K, root) == \A m \in K.Sel : /\ ~Excluded(root, K.M[m].p) /\ DocstrSafe(K, m)
                                       /\ K.M[m].x # 0
                                       /\ G!SlotsFit(K, m, ListAt(root, K.M[m].p))
 
@@ -62,16 +66,19 @@ MinS(S) == CHOOSE x \in S : \A y \in S : x <= y
 (* token = <<id of (type, text), trivia flag, start line, start col, end line, end col>>                        *)
 (* trivia flag 1 = COMMENT ( ) : the node's own grouping parentheses and the comments adjoining it belong to   *)
 (* the window (C04: "own grouping parentheses and the trivia between neighbours")                               *)
-(* layout tokens (flag 2: NL NEWLINE INDENT DEDENT ;) are erased before comparing: replacing a statement of a  *)
+(* layout tokens (flag 2: NL INDENT DEDENT ; and 3: NEWLINE) are erased before comparing: replacing a statement of a  *)
 (* one-line block (`def g(): h = 6; return h`) re-lays the block out on lines of its own, which changes the     *)
 (* line structure but no other token (C04 erases the container's own separators the same way); OutsideLines     *)
 (* judges the lines.                                                                                            *)
-Sig(toks) == SelectSeq(toks, LAMBDA t : t[2] # 2)
+Sig(toks) == SelectSeq(toks, LAMBDA t : t[2] < 2)
+(* named deviation ElifCollapse (option elif_, default on): an `If` that becomes the only statement of an       *)
+(* `else:` block is written `elif`, i.e. the `else` `:` tokens just before the window may go                    *)
 PrefixKeep(toks, start) ==
   LET I == {i \in 1..Len(toks) : PosLE(<<toks[i][5], toks[i][6]>>, start)}
       n == IF I = {} THEN 0 ELSE MaxS(I)
       C == {i \in 1..n : toks[i][2] = 0}
-  IN IF C = {} THEN 0 ELSE MaxS(C)
+      k == IF C = {} THEN 0 ELSE MaxS(C)
+  IN IF k >= 2 /\ toks[k][1] = Batch.tokColon /\ toks[k - 1][1] = Batch.tokElse THEN k - 2 ELSE k
 SuffixKeep(toks, end) ==      \* number of tokens at the end that must be preserved
   LET N == Len(toks)
       J == {i \in 1..N : PosLE(end, <<toks[i][3], toks[i][4]>>)}
@@ -86,14 +93,35 @@ OutsideTokens(s, t, start, end) ==
   /\ \A i \in 1..a : ps[i][1] = pt[i][1]
   /\ \A d \in 0..(b - 1) : ps[N - d][1] = pt[N2 - d][1]
 
-(* lines = <<id of the text, class>>, class 0 code, 1 blank, 2 comment only.   *)
-(* For a statement the comment block above it and adjoining blank lines may   *)
-(* go with it (C04 `Selected` trivia, `BlankLines`).                          *)
-OutsideLines(s, t, l0, l1, stmt) ==
+(* lines = <<id of the text, class>>, class 0 code, 1 blank, 2 comment only,   *)
+(* 3 a line consisting of `else:`.                                            *)
+(* Expression: the lines the node lies on.  Statement: the LOGICAL lines it    *)
+(* lies on (a statement of a one-line block `if d: e = 4; f = 5` cannot be     *)
+(* replaced by a compound statement without re-laying the block out), plus    *)
+(* the comment block above it and adjoining blank lines, which may go with it *)
+(* (C04 `Selected` trivia, `BlankLines`).                                     *)
+LineBefore(toks, start) ==     \* last line of the previous logical line
+  LET I == {i \in 1..Len(toks) : toks[i][2] = 3 /\ PosLE(<<toks[i][5], toks[i][6]>>, start)}
+  IN IF I = {} THEN 0 ELSE toks[MaxS(I)][3]
+LineAfter(toks, end, dflt) ==  \* last line of the logical line the node ends on
+  LET J == {i \in 1..Len(toks) : toks[i][2] = 3 /\ PosLE(end, <<toks[i][3], toks[i][4]>>)}
+  IN IF J = {} THEN dflt ELSE toks[MinS(J)][3]
+(* expression: the lines from the first to the last token that lies between the neighbouring significant    *)
+(* tokens, i.e. the node with its own grouping parentheses and the comments inside them                        *)
+ExprLineBefore(toks, start) ==
+  LET I == {i \in 1..Len(toks) : toks[i][2] = 0 /\ PosLE(<<toks[i][5], toks[i][6]>>, start)}
+      k == IF I = {} THEN 0 ELSE MaxS(I)
+  IN IF k + 1 <= Len(toks) THEN Min(toks[k + 1][3], start[1]) - 1 ELSE start[1] - 1
+ExprLineAfter(toks, end) ==
+  LET J == {i \in 1..Len(toks) : toks[i][2] = 0 /\ PosLE(end, <<toks[i][3], toks[i][4]>>)}
+      j == IF J = {} THEN Len(toks) + 1 ELSE MinS(J)
+  IN IF j - 1 >= 1 THEN Max(toks[j - 1][5], end[1]) ELSE end[1]
+OutsideLines(s, t, start, end, stmt) ==
   LET N == Len(s.lines)  N2 == Len(t.lines)
-      A == {i \in 1..(l0 - 1) : i <= N /\ (~stmt \/ s.lines[i][2] = 0)}
-      a == IF ~stmt THEN Min(l0 - 1, N) ELSE IF A = {} THEN 0 ELSE MaxS(A)
-      B == {i \in (l1 + 1)..N : ~stmt \/ s.lines[i][2] = 0}
+      a0 == IF stmt THEN Min(LineBefore(s.toks, start), N) ELSE Min(ExprLineBefore(s.toks, start), N)
+      a == IF stmt /\ a0 >= 1 /\ s.lines[a0][2] = 3 THEN a0 - 1 ELSE a0     \* ElifCollapse: the `else:` line above
+      l1 == IF stmt THEN LineAfter(s.toks, end, end[1]) ELSE ExprLineAfter(s.toks, end)
+      B == {i \in (l1 + 1)..N : ~stmt \/ s.lines[i][2] # 1}
       b == IF B = {} THEN 0 ELSE N - MinS(B) + 1
   IN /\ a + b <= N2
      /\ \A i \in 1..a : s.lines[i][1] = t.lines[i][1]
@@ -109,7 +137,7 @@ TextClauses(pfx, s, t, paths, stmt) ==
            start  == CHOOSE a \in starts : \A b \in starts : PosLE(a, b)
            end    == CHOOSE a \in ends : \A b \in ends : PosLE(b, a)
        IN { Cl(pfx \o "OutsideTokens", OutsideTokens(s, t, start, end)),
-            Cl(pfx \o "OutsideLines", OutsideLines(s, t, start[1], end[1], stmt)) }
+            Cl(pfx \o "OutsideLines", OutsideLines(s, t, start, end, stmt)) }
 
 (* ------------------------------------------------------------------------ *)
 VARIABLES tid, l, st, bad, seen, nEv, nUniq, allValid, fits
@@ -123,7 +151,7 @@ IsStmtAt(root, p) == TKindCat(Kind(NodeAt(root, p))) = "stmt"
 
 (* --- one substitution (any mode): locally the template with its slots      *)
 (* filled by what THIS match captured, nothing else changed                  *)
-KEvent(s, e) == [T |-> Tr.T, M |-> ResM(s.liveS, <<e.m>>), nested |-> FALSE, Sel |-> {1}]
+KEvent(s, e) == [T |-> Tr.T, M |-> ResM(s.liveS, <<e.m>>), nested |-> FALSE, Sel |-> {1}, docstr |-> Cfg.docstr]
 EventFits(s, e) == Sync(s) /\ CaseFits(KEvent(s, e), s.liveS)
 
 SubstClauses(s, e) ==
@@ -153,9 +181,9 @@ Static ==   \* [mode, K]: mode \in {"nn", "flat", "n", "step"}
       outer  == G!Outermost(M0)
       rankOK == \A m \in outer : Len(PosOf(m)) = 4
       cntOK  == Cfg.count = 0 \/ rankOK
-      kst    == [T |-> Tr.T, M |-> M0, nested |-> FALSE,
+      kst    == [T |-> Tr.T, M |-> M0, nested |-> FALSE, docstr |-> Cfg.docstr,
                  Sel |-> IF Cfg.count > 0 /\ rankOK THEN G!FirstN(outer, LAMBDA m : Rank(outer, m), Cfg.count) ELSE outer]
-      kn     == [T |-> Tr.T, M |-> M0, nested |-> TRUE, Sel |-> DOMAIN M0]
+      kn     == [T |-> Tr.T, M |-> M0, nested |-> TRUE, Sel |-> DOMAIN M0, docstr |-> Cfg.docstr]
       nn     == ~Cfg.nested /\ Cfg.on = "enter" /\ Cfg.loop = 0 /\ cntOK
       flat   == outer = DOMAIN M0 /\ Cfg.shapeOnly /\ Cfg.loop = 0 /\ cntOK
       n      == Cfg.nested /\ Cfg.on = "enter" /\ Cfg.loop = 0 /\ Cfg.count = 0 /\ ~G!TopCapture(kn)
@@ -171,7 +199,9 @@ StaticFits(K) == /\ Sync(Tr.init) /\ CaseFits(K, Tr.init.liveS)
 YieldArg(K, m) == \E o \in G!TopOccs(K, m) :
                     /\ o.k \in {"Call", "ClassDef"} /\ o.fn \in {"args", "bases"}
                     /\ G!CapKinds(K, m, o.g) \cap {"Yield", "YieldFrom"} # {}
-Detail(K) == IF \E m \in K.Sel : YieldArg(K, m) THEN "/yield-arg" ELSE ""
+MissingInBoolOp(K, m) == \E o \in G!TopOccs(K, m) : o.k = "BoolOp" /\ o.g # "" /\ G!CapOf(K, m, o.g).t = "missing"
+Detail(K) == (IF \E m \in K.Sel : YieldArg(K, m) THEN "/yield-arg" ELSE "")
+             \o (IF \E m \in K.Sel : MissingInBoolOp(K, m) THEN "/missing-in-boolop" ELSE "")
 
 DoneClauses(s, e) ==
   LET t  == e.post
